@@ -1282,6 +1282,100 @@ def qm_letters():
     ]
 
 
+_QM_M = None
+
+
+def qm_moment_letters():
+    """Whole moments on a, an otherwise idle system qubit s (= b) and one ancilla: the position of the system qubit's own
+    operation relative to the first / middle / last ancilla operation, in both operand orders inside the moment."""
+    s_ = b
+    bo, cl = cirq.ops.BorrowableQubit(0), cirq.ops.CleanQubit(0)
+    idle2 = cirq.CZ ** 2  # identity on any ancilla state: a legal one-moment use
+    L = [("[Z(a)]", cirq.Moment(cirq.Z(a))), ("[H(s)]", cirq.Moment(cirq.H(s_)))]
+    for nm, anc in (("borrow0", bo), ("clean0", cl)):
+        L += [
+            (f"[CNOT(a,{nm})]", cirq.Moment(cirq.CNOT(a, anc))),
+            (f"[H(s),CNOT(a,{nm})]", cirq.Moment(cirq.H(s_), cirq.CNOT(a, anc))),
+            (f"[CNOT(a,{nm}),H(s)]", cirq.Moment(cirq.CNOT(a, anc), cirq.H(s_))),
+        ]
+    L += [("[H(s),CZ^2(a,borrow0)]", cirq.Moment(cirq.H(s_), idle2(a, bo))), ("[CZ^2(a,borrow0),H(s)]", cirq.Moment(idle2(a, bo), cirq.H(s_)))]
+    return L
+
+
+def qm_moment_seq_ok(seq):
+    """Compute-uncompute use only: every ancilla receives an even number of CNOT(a, ancilla) (Z(a) commutes with them), so it
+    returns to its initial state whatever that state is and the system-qubit action is exact."""
+    cnt = {}
+    for i in seq:
+        for op in _QM_M[i][1]:
+            if op.gate == cirq.CNOT:
+                cnt[op.qubits[1]] = cnt.get(op.qubits[1], 0) + 1
+    return all(v % 2 == 0 for v in cnt.values())
+
+
+def _is_temp(q):
+    return isinstance(q, (cirq.ops.CleanQubit, cirq.ops.BorrowableQubit))
+
+
+def qm_structure(circ, out):
+    """Recovers the placeholder -> qubit assignment by walking the wires (every ancilla operation of the moment letters starts
+    with a system qubit) and checks it is legal: one image per lifespan, clean ancillas never on system qubits, a borrowed
+    system qubit has no operation of its own anywhere in the lifespan, no qubit serves two live placeholders."""
+    in_ops = [(mi, op) for mi, m_ in enumerate(circ) for op in m_]
+    span, ospan = {}, {}
+    for k, (mi, op) in enumerate(in_ops):
+        for q in op.qubits:
+            if _is_temp(q):
+                st, _ = span.get(q, (mi, mi))
+                span[q] = (st, mi)
+                ost, _ = ospan.get(q, (k, k))
+                ospan[q] = (ost, k)
+    system = {q for _, op in in_ops for q in op.qubits if not _is_temp(q)}
+    wires = {}
+    for m_ in out:
+        for op in m_:
+            for q in op.qubits:
+                wires.setdefault(q, []).append(op)
+    ptr = {q: 0 for q in wires}
+    image = {}
+    for k, (mi, op) in enumerate(in_ops):
+        anchor = next(q for q in op.qubits if not _is_temp(q))
+        if ptr.get(anchor, 0) >= len(wires.get(anchor, [])):
+            return f"operation {op!r} has no image in the output"
+        img = wires[anchor][ptr[anchor]]
+        if img.gate != op.gate or len(img.qubits) != len(op.qubits):
+            return f"operation {op!r} became {img!r}"
+        for q, qi in zip(op.qubits, img.qubits):
+            if not _is_temp(q):
+                if qi != q:
+                    return f"operation {op!r} became {img!r}"
+            elif image.setdefault(q, qi) != qi:
+                return f"placeholder {q!r} is mapped to both {image[q]!r} and {qi!r} within one lifespan"
+        for qi in img.qubits:
+            if wires[qi][ptr[qi]] is not img:
+                return f"operations on {qi!r} are not in input order: expected {img!r}, found {wires[qi][ptr[qi]]!r}"
+            ptr[qi] += 1
+    if any(ptr[q] != len(w) for q, w in wires.items()):
+        return "the output contains operations that are no image of an input operation"
+    for t, qi in image.items():
+        st, en = span[t]
+        if _is_temp(qi):
+            return f"placeholder {t!r} is mapped to the placeholder {qi!r}"
+        if qi in system:
+            if isinstance(t, cirq.ops.CleanQubit):
+                return f"clean ancilla {t!r} is mapped to the system qubit {qi!r}"
+            busy = [(mi, op) for mi, op in in_ops if st <= mi <= en and qi in op.qubits]
+            if busy:
+                return (f"{t!r} (lifespan moments {st}..{en}) borrows the system qubit {qi!r} although that qubit has its own "
+                        f"operation {busy[0][1]!r} in moment {busy[0][0]}")
+    ts = list(image)
+    for i_, t1 in enumerate(ts):
+        for t2 in ts[i_ + 1:]:
+            if image[t1] == image[t2] and not (ospan[t1][1] < ospan[t2][0] or ospan[t2][1] < ospan[t1][0]):
+                return f"{t1!r} and {t2!r} are alive at the same time and share {image[t1]!r}"
+    return None
+
+
 def _effective_unitary(circuit):
     """<0_temps| U |0_temps> on (a,b,c): the action on the system qubits with every ancilla starting and ending in |0>."""
     ops = list(flat_ops(circuit))
@@ -1296,8 +1390,13 @@ def _effective_unitary(circuit):
 
 def run_qm(case):
     seq, layout, qmi = case
-    items = [op for i in seq for op in _QM_L[i][1]]
-    circ = cirq.Circuit(items) if layout == 0 else cirq.Circuit([cirq.Moment(op) for op in items])
+    if layout == 2:
+        names = [_QM_M[i][0] for i in seq]
+        circ = cirq.Circuit([_QM_M[i][1] for i in seq])
+    else:
+        names = [_QM_L[i][0] for i in seq]
+        items = [op for i in seq for op in _QM_L[i][1]]
+        circ = cirq.Circuit(items) if layout == 0 else cirq.Circuit([cirq.Moment(op) for op in items])
     snap = tuple(circ.moments)
     qm = [None, cirq.GreedyQubitManager(prefix="anc", maximize_reuse=True), cirq.GreedyQubitManager(prefix="anc", size=1)][qmi]
     u_in, _, _ = _effective_unitary(circ)
@@ -1308,19 +1407,26 @@ def run_qm(case):
     if left:
         return bad(f"placeholder qubits left in the output: {sorted(set(left), key=str)}\ninput {circ!r}\noutput {out!r}", kind="placeholders_left",
                    transformer="map_clean_and_borrowable_qubits")
+    if layout == 2:
+        msg = qm_structure(circ, out)
+        if msg:
+            return bad(f"illegal qubit assignment: {msg}\nletters {names} qm={qm!r}\ninput {circ!r}\noutput {out!r}", kind="assignment",
+                       transformer="map_clean_and_borrowable_qubits")
     u_out, full, nt = _effective_unitary(out)
     if not E.eq_up_to_phase(u_in, u_out, atol=ATOL):
-        return bad(f"action on the system qubits (ancillas |0> -> |0>) differs\nletters {[_QM_L[i][0] for i in seq]} layout {layout} qm={qm!r}\n"
+        return bad(f"action on the system qubits (ancillas |0> -> |0>) differs\nletters {names} layout {layout} qm={qm!r}\n"
                    f"input {circ!r}\noutput {out!r}", kind="meaning", transformer="map_clean_and_borrowable_qubits")
     # ancillas must come back to |0>: the |0..0> column block must carry all the weight
     if nt and abs(np.linalg.norm(u_out) ** 2 - 8) > 1e-6:
         return bad(f"allocated ancillas do not return to |0>\ninput {circ!r}\noutput {out!r}", kind="ancilla_dirty", transformer="map_clean_and_borrowable_qubits")
+    if layout == 2:
+        return good(nontrivial=any(_is_temp(q) for q in circ.all_qubits()), transformer_calls=1)
     return good(nontrivial=any(len(_QM_L[i][1]) > 1 for i in seq), transformer_calls=1)
 
 
 def describe_qm(case):
     seq, layout, qmi = case
-    return {"letters": [_QM_L[i][0] for i in seq], "layout": layout, "qubit_manager": ["default", "greedy(maximize_reuse)", "greedy(size=1)"][qmi]}
+    return {"letters": [(_QM_M if layout == 2 else _QM_L)[i][0] for i in seq], "layout": ["earliest-packed", "one-op-per-moment", "explicit moments"][layout], "qubit_manager": ["default", "greedy(maximize_reuse)", "greedy(size=1)"][qmi]}
 
 
 # ---------------------------------------------------------------------------------------------
@@ -1347,7 +1453,7 @@ def core_chooser():
 
 
 def _init(seed):
-    global _L, _IDX, _CFG, _PSI, _GRID, _SEED, _QM_L
+    global _L, _IDX, _CFG, _PSI, _GRID, _SEED, _QM_L, _QM_M
     if _SEED == seed and _L is not None:
         return
     _SEED = seed
@@ -1365,6 +1471,7 @@ def _init(seed):
         if len(cfg.rel) > 12:
             raise core.HarnessError(f"relevant alphabet of {cfg.name} has {len(cfg.rel)} letters")
     _QM_L = qm_letters()
+    _QM_M = qm_moment_letters()
     _UC.clear()
     _EC.clear()
     _INCACHE.clear()
@@ -1480,6 +1587,12 @@ def stages(tier, seed):
             for layout in (0, 1):
                 for qmi in (0, 1, 2):
                     qm_cases.append((seq, layout, qmi))
+    # explicit moments: where the system qubit's own operation sits relative to the ancilla's lifespan (compute-uncompute only)
+    for L in ((1, 2, 3) if quick else (1, 2, 3, 4)):
+        for seq in itertools.product(range(len(_QM_M)), repeat=L):
+            if qm_moment_seq_ok(seq):
+                for qmi in (0, 1, 2):
+                    qm_cases.append((seq, 2, qmi))
     out.append(CaseStage("qubit_management", qm_cases, run_qm, reset=reset, describe=describe_qm))
     rej = [(ci,) for ci, cfg in enumerate(_CFG) if not cfg.deep and cfg.family in ("gauge", "gauge_sweep", "gauge_mm", "gauge_idle", "dd")]
     out.append(CaseStage("deep_rejections", rej, run_reject, reset=reset, describe=lambda cs: _CFG[cs[0]].name))
